@@ -54,6 +54,9 @@ def gen_cases(seed, tier):
     for j in range(240 if q else 6000):
         out.append({'kind': 'als', 'seed': int(rng.integers(1 << 62)),
             'layout': lay[j % len(lay)]})
+    for j in range(8 if q else 80):
+        out.append({'kind': 'als', 'seed': int(rng.integers(1 << 62)),
+            'layout': 'many'})
     for j in range(80 if q else 2000):
         out.append({'kind': 'func', 'seed': int(rng.integers(1 << 62))})
     for j in range(60 if q else 1500):
@@ -212,7 +215,12 @@ def make_training(rng, n, layout):
         if len(I) > 60:
             I = I[rng.permutation(len(I))[:60]]
             layout = 'random'
-    if layout != 'grid':
+    if layout == 'many':
+        # training sets beyond 2^15 samples (not a multiple of it): whatever
+        # blocking the interface updates use sees a remainder
+        m = (1 << 15) * int(rng.integers(1, 3)) + int(rng.integers(1, 9000))
+        I = np.stack([rng.integers(0, k, size=m) for k in n], axis=1)
+    elif layout != 'grid':
         m = int(rng.integers(max(n), 61))
         I = np.stack([rng.integers(0, k, size=m) for k in n], axis=1)
     m = len(I)
